@@ -49,11 +49,17 @@ class Scratch:
         return d
 
     def fresh(self, stem):
-        self.n += 1
-        return self.path("%s_%d" % (stem, self.n))
+        with _FRESH_LOCK:
+            self.n += 1
+            n = self.n
+        return self.path("%s_%d" % (stem, n))
 
     def cleanup(self):
         shutil.rmtree(self.dir, ignore_errors=True)
+
+
+import threading
+_FRESH_LOCK = threading.Lock()
 
 
 def run(cmd, *, cwd=None, env=None, timeout=600, check=False, stdin=None):
@@ -87,8 +93,9 @@ def tlc_raw(scratch, module, cfg, *, args=(), env_extra=None, timeout=900, worke
     """Run TLC on specs/<module>.tla with specs/<cfg> (or cfg_text written to a fresh file)."""
     d = _spec_copy(scratch)
     if cfg_text is not None:
-        cfg = "gen_%s_%d.cfg" % (module, scratch.n)
-        scratch.n += 1
+        with _FRESH_LOCK:
+            scratch.n += 1
+            cfg = "gen_%s_%d.cfg" % (module, scratch.n)
         with open(os.path.join(d, cfg), "w") as f:
             f.write(cfg_text)
     meta = scratch.fresh("meta")
@@ -343,9 +350,63 @@ def action_name_args(hdr):
 
 # ---- trace validation (monitor specs are total: they never block, they record violations) -------
 
+CHUNK_EVENTS = 250000
+
+
 def tlc_validate(scratch, module, trace_path, *, cfg=None, timeout=1800, extra_env=None):
     """Validate an ndjson trace against specs/<module>.tla (a *Trace module built on TraceIO).
-    Returns (violations, stats).  A violation is a dict(line=<1-based line in trace>, why=..., ...)."""
+    Returns (violations, stats).  A violation is a dict(line=<1-based line in trace>, why=..., ...).
+    Scenarios are independent (every monitor starts afresh at a `reset` event), so a long trace is cut at reset
+    lines into chunks that are validated by separate TLC runs, four at a time; line numbers are mapped back."""
+    bounds = [0]
+    n = 0
+    last_reset = 0
+    with open(trace_path) as f:
+        for i, line in enumerate(f):
+            n += 1
+            if '"ev":"reset"' in line or '"ev": "reset"' in line:
+                if i - bounds[-1] >= CHUNK_EVENTS:
+                    bounds.append(i)
+    if len(bounds) == 1:
+        return _tlc_validate_one(scratch, module, trace_path, cfg=cfg, timeout=timeout, extra_env=extra_env)
+    bounds.append(n)
+    parts = []
+    with open(trace_path) as f:
+        k = 0
+        out = None
+        for i, line in enumerate(f):
+            if k < len(bounds) - 1 and i == bounds[k]:
+                if out:
+                    out.close()
+                pth = "%s.part%d" % (trace_path, k)
+                parts.append((pth, bounds[k]))
+                out = open(pth, "w")
+                k += 1
+            out.write(line)
+        if out:
+            out.close()
+    import concurrent.futures
+    viol, stats = [], {"wall": 0.0, "states": 0, "events": 0, "scenarios": 0, "rejected": 0, "chunks": len(parts)}
+    with concurrent.futures.ThreadPoolExecutor(max_workers=4) as ex:
+        futs = [(off, ex.submit(_tlc_validate_one, scratch, module, pth, cfg=cfg, timeout=timeout, extra_env=extra_env))
+                for (pth, off) in parts]
+        for off, fu in futs:
+            v, st = fu.result()
+            for x in v:
+                x["line"] += off
+            viol += v
+            for key in ("wall", "states", "events", "scenarios", "rejected"):
+                stats[key] = stats.get(key, 0) + (st.get(key) or 0)
+    for pth, _ in parts:
+        try:
+            os.remove(pth)
+        except OSError:
+            pass
+    stats["summary"] = True
+    return viol, stats
+
+
+def _tlc_validate_one(scratch, module, trace_path, *, cfg=None, timeout=1800, extra_env=None):
     cfg = cfg or (module + ".cfg")
     outp = scratch.fresh("monout") + ".ndjson"
     env = {"VERIF_TRACE": trace_path, "VERIF_MONOUT": outp}
